@@ -19,7 +19,7 @@ TIMEOUT = {"quick": 3600, "thorough": 14400}
 ASSUMPTIONS = ["the estimator is piecewise smooth (comb indices, clipping): samples whose finite difference diverges like 1/eps are classified as "
                "discontinuities and excluded; more than 20 % excluded makes the run inconclusive",
                "one-body limit uses a gapped one-body Hamiltonian (HOMO-LUMO gap >= 0.5)"]
-REQUIRED_COUNTERS = {"jvp_calls": 6, "vjp_calls": 6, "one_body_limit": 4}
+REQUIRED_COUNTERS = {"jvp_calls": 6, "vjp_calls": 6, "one_body_limit": 4, "site_2rdm": 2}
 NWALK = 6
 
 
@@ -39,7 +39,90 @@ def gen_cases(tier, seed):
     for wt in (("uhf",) if q else ("rhf", "uhf")):
         for rep in range(1 if q else 3):
             cases.append({"type": "rdm2", "wt": wt, "shape": [2, 1, 1], "dt": 0.02, "s": int(rng.integers(1 << 30)), "group": "r2-%s-%d" % (wt, rep), "cost": 60})
+    # lattice-type two-body terms (site-diagonal, symmetry-equivalent sites => exactly tied pivots in the re-decomposition of the ERI tensor)
+    for wt in (("rhf", "uhf") if q else ("rhf", "uhf", "rhf", "uhf")):
+        cases.append({"type": "rdm2site", "wt": wt, "shape": [2, 1, 2], "dt": 0.02, "s": int(rng.integers(1 << 30)),
+                      "group": "r2s-%s-%d" % (wt, len(cases)), "cost": 40})
     return cases
+
+
+def _pivoted_cholesky_ref(mat, nchol):
+    """textbook pivoted (modified) Cholesky in NumPy, largest residual diagonal first, lowest index on ties"""
+    mat = np.asarray(mat, dtype=float)
+    d = mat.diagonal().copy()
+    vecs = []
+    for _ in range(nchol):
+        nu = int(np.argmax(np.abs(d)))
+        r = mat[nu].copy()
+        for v in vecs:
+            r -= v[nu] * v
+        v = r / np.sqrt(abs(d[nu]))
+        vecs.append(v)
+        d = d - v * v
+    return np.array(vecs)
+
+
+def run_rdm2site(case):
+    """propagate_phaseless_ad_1 handed the ERI tensor of a site-diagonal interaction with equivalent sites must be the same
+    deterministic function as propagate_phaseless_ad at zero coupling on the Cholesky vectors of that tensor (the 2-RDM entry point
+    may not change the Hamiltonian it is differentiated against)"""
+    import jax.numpy as jnp
+    from jax import random
+
+    from ad_afqmc import hamiltonian, propagation, sampling, wavefunctions
+    from checks import c18
+
+    rng = np.random.default_rng(case["s"])
+    wt = case["wt"]
+    norb = 4
+    ne = (2, 2) if wt == "rhf" else (2, 1)
+    us = np.array([[1.0, 1.0, 1.0, 1.0], [1.2, 1.2, 0.6, 0.6], [0.8, 1.4, 0.8, 1.4]][int(rng.integers(3))])
+    hop = np.zeros((norb, norb))
+    for i in range(norb):
+        hop[i, (i + 1) % norb] = hop[(i + 1) % norb, i] = -1.0
+    hm = hop + np.diag(rng.normal(size=norb) * 0.3)
+    h1 = np.array([hm, hm])
+    chol = np.zeros((norb, norb, norb))
+    for g in range(norb):
+        chol[g, g, g] = np.sqrt(us[g])
+    chol = chol.reshape(norb, -1)
+    eri = np.einsum("gj,gl->jl", chol, chol)
+    ref = _pivoted_cholesky_ref(eri, norb)
+    events = []
+    key = "C06/2rdm-site/%s" % wt
+    events.append(judge("2rdm-site/reference-decomposition-reproduces-eri", float(np.max(np.abs(ref.T @ ref - eri))), 1e-12, key + "/harness-reference"))
+    if wt == "rhf":
+        trial = wavefunctions.rhf(norb, ne)
+        C0 = c18.occ(hm, ne[0])[0]
+        wd = {"mo_coeff": jnp.array(C0)}
+        prop = propagation.propagator_restricted(dt=case["dt"], n_walkers=NWALK)
+    else:
+        trial = wavefunctions.uhf(norb, ne)
+        C0 = [c18.occ(hm, ne[0])[0], c18.occ(hm, ne[1])[0]]
+        wd = {"mo_coeff": [jnp.array(C0[0]), jnp.array(C0[1])]}
+        prop = propagation.propagator_unrestricted(dt=case["dt"], n_walkers=NWALK)
+    wd["rdm1"] = trial.get_rdm1(wd)
+    ham = hamiltonian.hamiltonian(norb)
+    S = {"trial": trial, "wave_data": wd, "norb": norb, "nelec": ne}
+    w0 = afqmc.noisy_walkers(rng, S, NWALK, noise=0.1, walker_type=wt)
+    smp = sampling.sampler(n_prop_steps=case["shape"][0], n_ene_blocks=case["shape"][1], n_sr_blocks=case["shape"][2], n_blocks=1)
+    out = {}
+    for which, ch in (("ad_1", chol), ("ad", ref)):
+        hd = trials.ham_data_of(0.0, h1, ch)
+        hd = ham.build_measurement_intermediates(hd, trial, wd)
+        hd = ham.build_propagation_intermediates(hd, prop, trial, wd)
+        pd = prop.init_prop_data(trial, wd, hd, w0)
+        pd["key"] = random.PRNGKey(case["s"] % 65521)
+        if which == "ad_1":
+            e, pd2 = smp.propagate_phaseless_ad_1(ham, hd, 1.0, jnp.array(eri.reshape(norb, norb, norb, norb)), prop, pd, trial, wd)
+        else:
+            e, pd2 = smp.propagate_phaseless_ad(ham, hd, 0.0, jnp.zeros((2, norb, norb)), prop, pd, trial, wd)
+        out[which] = (float(e), np.asarray(pd2["weights"]))
+    events.append(judge("2rdm-site/primal-equals-coupling-entry-point-on-the-same-hamiltonian", abs(out["ad_1"][0] - out["ad"][0]), 1e-7 * max(1.0, abs(out["ad"][0])),
+                        key + "/primal", ad_1=out["ad_1"][0], ad=out["ad"][0], u=us.tolist()))
+    events.append(judge("2rdm-site/weights-equal-coupling-entry-point", float(np.max(np.abs(out["ad_1"][1] - out["ad"][1]))), 1e-7, key + "/weights"))
+    return {"events": events, "nontrivial": True, "sample": {"wt": wt, "u": us.tolist(), "energy_ad_1": out["ad_1"][0], "energy_ad": out["ad"][0]},
+            "counters": {"vjp_calls": 0, "jvp_calls": 0, "one_body_limit": 0, "site_2rdm": 1}}
 
 
 def _fn(entry, smp):
@@ -282,4 +365,4 @@ def run_rdm2(case):
 
 
 def run_case(case):
-    return run_deriv(case) if case["type"] == "deriv" else run_rdm2(case)
+    return {"deriv": run_deriv, "rdm2": run_rdm2, "rdm2site": run_rdm2site}[case["type"]](case)
